@@ -86,7 +86,7 @@ unsafe impl GlobalAlloc for Counting {
 }
 
 // the case being executed, for the crash file (no allocation on the dump path)
-static CURRENT: Mutex<([u8; 16384], usize)> = Mutex::new(([0u8; 16384], 0));
+static CURRENT: Mutex<([u8; 4 << 20], usize)> = Mutex::new(([0u8; 4 << 20], 0));
 static CRASH_FILE: Mutex<Option<std::fs::File>> = Mutex::new(None);
 static CASE_STARTED_MS: AtomicUsize = AtomicUsize::new(0);
 
